@@ -11,7 +11,7 @@ Obj == [a |-> Ev.a, b |-> Ev.b]
 Pen == /\ Is("Pen") /\ l' = l + 1
        /\ Ev.cvals = [k \in DOMAIN Ev.cs |-> Cval(Ev.cs[k], Ev.x)]                   \* constraint values as the library evaluates them
        /\ Ev.f = Fval(Obj, Ev.x)
-       /\ Ev.lin = LinVal(Obj, Ev.cs, Ev.rho, Ev.x) /\ Ev.glin = LinGrad(Obj, Ev.cs, Ev.rho, Ev.x)
+       /\ Ev.lin = LinVal(Obj, Ev.cs, Ev.rho, Ev.x) /\ LinGradOK(Obj, Ev.cs, Ev.rho, Ev.x, Ev.glin)
        /\ Ev.quad = QuadVal(Obj, Ev.cs, Ev.rho, Ev.x) /\ Ev.gquad = QuadGrad(Obj, Ev.cs, Ev.rho, Ev.x)
        /\ Ev.al2rho = AL2rho(Obj, Ev.cs, Ev.rho, Ev.mult, Ev.x) /\ Ev.gal = ALGrad(Obj, Ev.cs, Ev.rho, Ev.mult, Ev.x)
        /\ Ev.valueOnlySame                                                             \* value-only call = value of value+gradient call
